@@ -966,36 +966,53 @@ bool cliQasmFileCheckOnce(const qh::Plan& plan, int shots, std::string& detail, 
     sim::writeFile(base + ".bloch", rd.source);
     if (!keepOldFile) unlink((base + ".qasm").c_str());
     if (!decoy.empty()) unlink(decoy.c_str());
-    g_rng.reset(0x5eed, 7);   // the same draws for the full and the truncated run
-    std::vector<std::string> args = {"bloch", "--emit-qasm", arg};
-    std::vector<char*> av;
-    for (auto& a : args) av.push_back(const_cast<char*>(a.c_str()));
-    gcs::g_observer = nullptr;
-    gcs::install();
-    gcs::Schedule s;
-    s.generative = true;
-    s.meanIncNs = 1000000;
-    g_rng.install();
+    auto runCli = [&](bool emitFlag, std::string& out) {
+        g_rng.reset(0x5eed, 7);   // the same draws for the full run, the truncated run and the run without the flag
+        std::vector<std::string> args = {"bloch"};
+        if (emitFlag) args.push_back("--emit-qasm");
+        args.push_back(arg);
+        std::vector<char*> av;
+        for (auto& a : args) av.push_back(const_cast<char*>(a.c_str()));
+        gcs::g_observer = nullptr;
+        gcs::install();
+        gcs::Schedule s;
+        s.generative = true;
+        s.meanIncNs = 1000000;
+        g_rng.install();
+        int rc;
+        {
+            LocaleEnv le(g_cliCommaLocale);
+            CoutCapture cap;
+            gcs::beginRun(s);
+            rc = cli::run((int)av.size(), av.data(), cli::Context{});
+            gcs::endRun();
+            out = cap.out.str();
+        }
+        rngs::Provider::uninstall();
+        return rc;
+    };
     std::string out;
-    int rc;
-    {
-        LocaleEnv le(g_cliCommaLocale);
-        CoutCapture cap;
-        gcs::beginRun(s);
-        rc = cli::run((int)av.size(), av.data(), cli::Context{});
-        gcs::endRun();
-        out = cap.out.str();
-    }
-    rngs::Provider::uninstall();
-    if (oldCwd[0] && chdir(oldCwd) != 0) { detail = "harness: chdir back failed"; return true; }
-    if (rc != 0) { detail = "cli::run returned " + std::to_string(rc); return true; }  // runtime error paths are not this clause
+    int rc = runCli(true, out);
+    auto back = [&]() { return !(oldCwd[0] && chdir(oldCwd) != 0); };
+    if (rc != 0) { back(); detail = "cli::run returned " + std::to_string(rc); return true; }  // runtime error paths are not this clause
     std::string file;
-    if (!sim::readFile(base + ".qasm", file)) { detail = "no .qasm file written next to the source (source named as '" + arg + "')"; return false; }
+    if (!sim::readFile(base + ".qasm", file)) { back(); detail = "no .qasm file written next to the source (source named as '" + arg + "')"; return false; }
     size_t pos = out.find("OPENQASM 2.0;");
-    if (pos == std::string::npos) { detail = "--emit-qasm printed no OpenQASM text"; return false; }
-    if (out.substr(pos) != file) { detail = "bytes of prog.qasm differ from the OpenQASM section printed by --emit-qasm (shots=" + std::to_string(shots) + ")"; return false; }
+    if (pos == std::string::npos) { back(); detail = "--emit-qasm printed no OpenQASM text"; return false; }
+    if (out.substr(pos) != file) { back(); detail = "bytes of prog.qasm differ from the OpenQASM section printed by --emit-qasm (shots=" + std::to_string(shots) + ")"; return false; }
     refq::QasmProgram P = refq::parseQasm(file);
-    if (!P.ok) { detail = "file is not well-formed: " + P.error; return false; }
+    if (!P.ok) { back(); detail = "file is not well-formed: " + P.error; return false; }
+    if (!keepOldFile) {
+        // the file is written by every run, with or without the flag: the same run without --emit-qasm leaves the same bytes
+        unlink((base + ".qasm").c_str());
+        std::string out2, file2;
+        int rc2 = runCli(false, out2);
+        if (rc2 == 0) {
+            if (!sim::readFile(base + ".qasm", file2)) { back(); detail = "a run without --emit-qasm wrote no .qasm file next to the source"; return false; }
+            if (file2 != file) { back(); detail = "the .qasm file written by a run without --emit-qasm (" + std::to_string(file2.size()) + " bytes) differs from what the same run prints with --emit-qasm (" + std::to_string(file.size()) + " bytes, shots=" + std::to_string(shots) + ")"; return false; }
+        }
+    }
+    if (!back()) { detail = "harness: chdir back failed"; return true; }
     return true;
 }
 
